@@ -35,6 +35,26 @@ package bloomsearch
 //@ pure
 //@ ensures result != nil
 
+// binary.LittleEndian.Uint32 reads b[0..3]; it panics on a shorter slice, so
+// the length is a precondition every caller must establish.
+//@ extern binary.littleEndian.Uint32
+//@ pure
+//@ requires len(b) >= 4
+
+//@ extern binary.littleEndian.PutUint32
+//@ requires len(b) >= 4
+//@ modifies b[*]
+
+//@ extern crc32.Checksum
+//@ pure
+
+//@ extern time.Now
+//@ pure
+//@ extern time.Since
+//@ pure
+//@ extern time.Time.IsZero
+//@ pure
+
 // ---------------------------------------------------------------------------
 // min_max.go
 // ---------------------------------------------------------------------------
@@ -60,6 +80,43 @@ package bloomsearch
 //@ requires b != nil
 //@ requires 0 <= regionOffset   // every caller passes a validated, non-negative region start
 //@ ensures result == nil <==> validSection(b, regionOffset, regionEnd)
+
+// validate promises (C19 obligation 5): a nil result means the region and both
+// extents of every block lie inside [0, dataLimit], stated over mathematical
+// integers — so the compare-by-subtraction form is proved overflow-proof.
+//@ pred regionFits(m *FileMetadata, limit int) = 0 <= m.BlockFilterRegionOffset && 0 <= m.BlockFilterRegionSize && 0 <= limit && m.BlockFilterRegionOffset + m.BlockFilterRegionSize <= limit
+//@ pred blockFits(b DataBlockMetadata, ro int, re int) = 0 <= b.RowDataOffset && 0 <= b.RowDataSize && b.RowDataOffset + b.RowDataSize <= ro && b.BloomFilterSize >= 0 && (b.BloomFilterSize == 0 || (ro <= b.BloomFilterOffset && b.BloomFilterOffset + b.BloomFilterSize <= re))
+
+//@ func (*FileMetadata).validate
+//@ props C19 C17 C24
+//@ safety
+//@ requires m != nil
+//@ loop 0 invariant -1 <= $index && $index < len(m.DataBlocks)
+//@ loop 0 invariant forall k :: 0 <= k && k <= $index ==> blockFits(m.DataBlocks[k], m.BlockFilterRegionOffset, m.BlockFilterRegionOffset + m.BlockFilterRegionSize)
+//@ ensures result == nil ==> regionFits(m, dataLimit)
+//@ ensures result == nil ==> forall k :: 0 <= k && k < len(m.DataBlocks) ==> blockFits(m.DataBlocks[k], m.BlockFilterRegionOffset, m.BlockFilterRegionOffset + m.BlockFilterRegionSize)
+
+//@ func planBlockFilterReads
+//@ props C19 C24 C01
+//@ safety
+//@ loop 0 invariant -1 <= $index && $index < len(blocks)
+//@ loop 0 invariant forall k :: 0 <= k && k <= $index ==> validSection(blocks[k], regionOffset, regionOffset + regionSize)
+//@ loop 0 invariant hasSections ==> exists k :: 0 <= k && k <= $index && blocks[k].BloomFilterSize > 0
+//@ loop 0 invariant !hasSections ==> forall k :: 0 <= k && k <= $index ==> blocks[k].BloomFilterSize == 0
+//@ ensures err == nil ==> 0 <= regionStart && regionStart == regionOffset && regionEnd == regionOffset + regionSize && regionStart <= regionEnd
+//@ ensures err == nil ==> forall k :: 0 <= k && k < len(blocks) ==> validSection(blocks[k], regionStart, regionEnd)
+//@ ensures err == nil && hasSections ==> exists k :: 0 <= k && k < len(blocks) && blocks[k].BloomFilterSize > 0
+//@ ensures err == nil && !hasSections ==> forall k :: 0 <= k && k < len(blocks) ==> blocks[k].BloomFilterSize == 0
+
+//@ func (*BlockRowScanner).Next
+//@ props C19 C02 C23 C11
+//@ safety
+//@ requires s != nil && 0 <= s.pos && s.pos <= len(s.data)
+//@ modifies s.pos
+//@ ensures 0 <= s.pos && s.pos <= len(s.data) && s.data == old(s.data)
+//@ ensures err == nil && ok ==> old(s.pos) + 4 <= s.pos && len(row) == s.pos - old(s.pos) - 4
+//@ ensures err == nil && !ok ==> s.pos == old(s.pos) && s.pos == len(s.data)
+//@ ensures err != nil ==> !ok
 
 //@ func (*blockFilterCursor).heldSection
 //@ props C19 C24 C01
